@@ -17,7 +17,7 @@ func init() {
 		Text: "Every `range` over a map in codegen/types, codegen/resources, codegen/utils (except the type registry's cycle search) and cmd is classified like R09.1: a body that passes a shared jennifer Statement/Group/File (or another shared sink) " +
 			"is order-sensitive and a violation unless the site is one of the confirmed per-key-output idioms frozen below (one output file per key; jennifer renders imports sorted). IdentifierSet.Range must collect, sort, then visit. " +
 			"A positive control (a synthetic order-sensitive loop) must be recognised on every run.",
-		Props: []string{"C12"},
+		Props: []string{"C12", "C20"},
 		Floor: map[string]int{"v2": 5, "root": 3},
 		Run:   runR123,
 	})
@@ -28,7 +28,6 @@ func init() {
 var generatorMapRangeExceptions = map[string]string{
 	"cmd.GenerateCode|range over utils.TypeRegistry.TypesInPackageRoot(inputManifest.PackageRoot)": "each key yields one CodeFile written to its own file name derived from the key; the order files are written in does not affect their content",
 	"cmd.GenerateCustomTyperefInit|range over customTyperefs":                                      "one init file per package key; the inner identifier set is visited through the sorting IdentifierSet.Range",
-	"cmd.GenerateAllImportsTest|range over imports":                                                "anonymous imports added in map order: jennifer renders the import block sorted by path",
 }
 
 func runR123(c *core.Ctx) {
